@@ -16,9 +16,11 @@ class Ctx:
         self.tier = tier
         self._facts = {}
         self.info = {}
+        self.default_config = os.environ.get('VERIF_CONFIG', 'dev')
         self.rep = Report(prop, tier)
 
-    def facts(self, config='dev'):
+    def facts(self, config=None):
+        config = config or self.default_config
         if config not in self._facts:
             path, info = extract.facts_path(config)
             self.info[config] = info
@@ -89,6 +91,19 @@ def main(argv):
     try:
         mod = importlib.import_module('rules.' + prop.lower())
         mod.run(ctx)
+        if a.tier == 'thorough' and prop != 'C01' and ctx.default_config == 'dev':
+            # the same rules on the MIR of the release profile (overflow checks off, debug assertions off): the
+            # property must hold for the binary that is shipped, not only for the debug build (C01 does this itself)
+            ctx2 = Ctx(prop, a.tier)
+            ctx2.default_config = 'release'
+            mod.run(ctx2)
+            for rid in ctx2.rep.order:
+                r2 = ctx2.rep.rules[rid]
+                nid = rid + '/release'
+                rep.rules[nid] = {'desc': r2['desc'] + ' [release MIR]', 'floor': r2['floor'], 'instances': r2['instances']}
+                rep.order.append(nid)
+            rep.analysed_fns |= ctx2.rep.analysed_fns
+            ctx.info.update({'release': ctx2.info.get('release')})
     except AnalysisError as e:
         fail_closed = 'analysis cannot decide: %s' % e
     except SystemExit:
@@ -115,7 +130,7 @@ def main(argv):
         for i in inst:
             if i['ok']:
                 continue
-            full = '%s:%s' % (rid, i['key'])
+            full = '%s:%s' % (rid.replace('/release', ''), i['key'])
             if full in known_keys:
                 known_hits.append((full, known_keys[full], i))
             else:
